@@ -178,6 +178,10 @@ theorem dblY_def (X Y Z : F) : Secp.dblY X Y Z =
   unfold Secp.dblY; push_cast; ring
 theorem dblZ_def (X Y Z : F) : Secp.dblZ X Y Z = ((8:ℤ):F)*Y*Y*Y*Z := by
   unfold Secp.dblZ; push_cast; ring
+/-- `secp_poly` above writes the literal `7`; the `//@ define secp_poly(x) = x*x*x + F(7)` line, translated literally
+(`scripts/gen_statements.py` checks the right-hand side against the contract file) -/
+theorem secp_poly_def (x : F) : secp_poly x = x*x*x + ((7:ℤ):F) := by
+  unfold secp_poly; rw [Int.cast_ofNat]
 
 /-! ## 2. Generic versions over `ZMod m`, `m` prime -/
 
